@@ -965,7 +965,29 @@ fn syndrome_faults(ctx: &Ctx, rng: &mut Rng, s: &SizeInfo, b: usize, faults: &mu
             }
         }
         let v = xs.len();
-        let ys: Vec<u8> = (0..v).map(|_| rng.nonzero_byte()).collect();
+        let mut ys: Vec<u8> = (0..v).map(|_| rng.nonzero_byte()).collect();
+        if v >= 2 && rng.chance(1, 4) {
+            // the genuine pattern's own leading syndromes vanish (values solved for): the decoder starts at a higher
+            // order, and whatever it derives from the COUNT of leading zeros meets a crafted tail as well
+            let z = rng.range(1, (v - 1).min(4));
+            let mut a = vec![0u8; z * z];
+            let mut rhs = vec![0u8; z];
+            for j in 0..z {
+                for c in 0..z {
+                    a[j * z + c] = gf_pow(gf, xs[c], j + 1);
+                }
+                let mut acc = 0u8;
+                for c in z..v {
+                    acc ^= gf.mul(ys[c], gf_pow(gf, xs[c], j + 1));
+                }
+                rhs[j] = acc;
+            }
+            if let Some(sol) = gf.solve(&a, &rhs, z) {
+                if sol.iter().all(|x| *x != 0) {
+                    ys[..z].copy_from_slice(&sol);
+                }
+            }
+        }
         syn = (1..=k)
             .map(|j| {
                 let mut acc = 0u8;
@@ -1221,8 +1243,11 @@ fn foreign_recurrence_faults(ctx: &Ctx, rng: &mut Rng, s: &SizeInfo, faults: &mu
         (0, 0)
     };
     let nb_min = s.block_len(s.blocks - 1);
-    let v = if rng.chance(2, 3) { rng.range(1, 4.min(t - 1)) } else { rng.range(1, t - 1) };
-    let e = if s.blocks == 1 { (t - v).max(1) } else if rng.chance(1, 2) { t } else { rng.range(2, t) };
+    // the connection polynomial comes from v genuine errors in the neighbouring block, or (always on single-block
+    // sizes) from v phantom locators that no block carries
+    let phantom_only = s.blocks == 1 || rng.chance(1, 3);
+    let v = if rng.chance(1, 2) { rng.range(1, 4.min(t - 1)) } else { rng.range(1, t - 1) };
+    let e = if rng.chance(1, 2) { t } else { rng.range(2, t) };
     if v + e > nb_min || e < 2 {
         return false;
     }
@@ -1302,7 +1327,7 @@ fn foreign_recurrence_faults(ctx: &Ctx, rng: &mut Rng, s: &SizeInfo, faults: &mu
         // y_q = z_q / C(X_q), C(x) = prod (x + X_p)
         let pos_src = s.block_positions(b_src);
         let pos_dst = s.block_positions(b_dst);
-        if s.blocks > 1 {
+        if !phantom_only {
             for d in &degs[..v] {
                 let p = pos_src[pos_src.len() - 1 - *d];
                 faults.push(Fault::new("cw_foreign", Op::CwXor { pos: p as u32, mask: rng.nonzero_byte() }));
